@@ -170,7 +170,7 @@ def run(ck):
                 e = float(np.max(np.abs(l2 - loads[perm]) / np.maximum(loads[perm], 1e-300)))
                 note("permutation", e)
                 if e > 1e-5:
-                    ck.fail_case({**sig, "clause": "result changes when the components are permuted"}, {**detail, "permutation": perm, "got": l2.tolist(), "expected": loads[perm].tolist()})
+                    ck.fail_case({**sig, "clause": "result changes when the components are permuted", "trace_component": bool(min(np.min(l2 / np.sum(l2)), np.min(x)) < 1e-5)}, {**detail, "permutation": perm, "got": l2.tolist(), "expected": loads[perm].tolist()})
             except CalculationError:
                 pass
         # fraction helper
@@ -248,7 +248,8 @@ def run(ck):
             elif what == "finish":
                 x, tot, loads = data
                 lm = [float(v) for v in parse_qlist(t[3])]
-                ok = relerr(float(parse_q(t[2])), tot) < 1e-9 and all(relerr(a, b) < 1e-9 for a, b in zip(lm, loads)) and t[4] == "true"
+                # (the last fraction is 1 - sum of the others: compare on the scale of the total, a trace component carries the cancellation)
+                ok = relerr(float(parse_q(t[2])), tot) < 1e-9 and all(abs(a - b) <= 1e-9 * tot for a, b in zip(lm, loads)) and t[4] == "true"
             elif what == "pp":
                 ok = all(relerr(float(a), float(b)) < 1e-12 for a, b in zip(parse_qlist(t[1]), data))
             else:
